@@ -82,6 +82,15 @@ def conventional_plus(r, idx):
     agr = main.message("AggregatedListThingsResponse"); agr.map_field("items", 1, "string", sl.fqn).field("next_page_token", 2, "string")
     svc.rpc("AggregatedListThings", ag.fqn, agr.fqn, http=("get", "/v1/{parent=projects/*}/aggregated/things"), sigs=["parent"])
     feats.append("map-valued-paged-method")
+    # paged methods whose page field is a repeated enum / a repeated scalar
+    kd = main.enum("ThingKind", ["THING_KIND_UNSPECIFIED", "THING_KIND_SMALL", "THING_KIND_LARGE"])
+    lkq = main.message("ListThingKindsRequest"); lkq.field("parent", 1, "string").field("page_size", 2, "int32").field("page_token", 3, "string")
+    lkp = main.message("ListThingKindsResponse"); lkp.field("kinds", 1, ("enum", kd), repeated=True).field("next_page_token", 2, "string")
+    svc.rpc("ListThingKinds", lkq.fqn, lkp.fqn, http=("get", "/v1/{parent=projects/*}/thingKinds"), sigs=["parent"])
+    lnp = main.message("ListThingNamesResponse"); lnp.field("names", 1, "string", repeated=True).field("next_page_token", 2, "string")
+    lnq = main.message("ListThingNamesRequest"); lnq.field("parent", 1, "string").field("page_size", 2, "int32").field("page_token", 3, "string")
+    svc.rpc("ListThingNames", lnq.fqn, lnp.fqn, http=("get", "/v1/{parent=projects/*}/thingNames"), sigs=["parent"])
+    feats.append("enum-and-scalar-paged-methods")
     # two path variables nested under the SAME request sub-message (plus a third level)
     pos = main.message("ThingPosition"); pos.field("shelf", 1, "string").field("thing_id", 2, "string").field("slot", 3, "int32")
     mv = main.message("MoveThingAroundRequest"); mv.field("position", 1, pos.fqn).field("note", 2, "string")
